@@ -445,7 +445,13 @@ func (e C08) Execute(plan interface{}, c *core.Ctx) *core.Verdict {
 			if off+s > len(data) {
 				s = len(data) - off
 			}
-			n, err := w.Write(data[off : off+s])
+			// the caller reuses one scratch buffer, as a copy loop does: what was handed to Write is overwritten
+			// as soon as Write has returned (io.Writer must not retain it)
+			scratch := append(make([]byte, 0, s+7), data[off:off+s]...)
+			n, err := w.Write(scratch)
+			for i := range scratch[:cap(scratch)] {
+				scratch[:cap(scratch)][i] = 0xAA
+			}
 			calls++
 			c.Log.Add("armor.Write(%d) -> (%d,%v)", s, n, err)
 			if n != s || err != nil {
